@@ -45,7 +45,9 @@ def main():
             verdict, backend, ms, detail = smt.check(ob, ax, budget)
             out["obligations"].append({"name": ob.name, "kind": ob.kind, "props": ob.props, "verdict": verdict,
                                        "backend": backend, "ms": ms, "detail": (detail or "")[:4000], "info": ob.info})
-            if req.get("canary") and verdict != "proved" and ob.name.split("[")[0] not in (req.get("ignore") or []) and ob.name not in (req.get("ignore") or []):
+            relevant = not (ob.kind == "post" and ob.props and req.get("pid") and req["pid"] not in ob.props)
+            if req.get("canary") and verdict != "proved" and relevant and ob.name.split("[")[0] not in (req.get("ignore") or []) \
+                    and ob.name not in (req.get("ignore") or []):
                 break
     except Unsupported as e:
         out["error"] = {"type": "unsupported", "msg": str(e)}
